@@ -65,6 +65,7 @@ Rec(a, r) == hist' = Append(hist, [a |-> a, res |-> r]) /\ unsafe' = (unsafe \/ 
 
 Do(a) ==
   CASE a.k = "inst"   -> /\ status[a.i] = "none" /\ a.i # "A" /\ (a.i \in Importers => status["A"] = "open")
+                         /\ ~cclosed[a.i]             \* not after the compilation cache was closed (it may fail then; not modelled)
                          /\ status' = [status EXCEPT ![a.i] = "open"] /\ href' = [href EXCEPT ![a.i] = TRUE]
                          /\ Rec(a, "ok") /\ UNCHANGED <<cclosed, shared, priv, mapped>>
     [] a.k = "tset"   -> \* instance a.i (A or B) stores ITS function in the shared table
@@ -81,6 +82,11 @@ Do(a) ==
     [] a.k = "closec" -> \* CompiledModule.Close while instances may live: documented as safe
                          /\ status[a.i] # "none" /\ ~cclosed[a.i] /\ href[a.i]
                          /\ cclosed' = [cclosed EXCEPT ![a.i] = TRUE] /\ Rec(a, "ok")
+                         /\ UNCHANGED <<status, href, shared, priv, mapped>>
+    [] a.k = "cacheclose" -> \* CompilationCache.Close while the runtime that uses it and its instances are alive: the engine's
+                         \* compiled modules are all released, as if every CompiledModule had been closed
+                         /\ \E i \in Insts : ~cclosed[i]
+                         /\ cclosed' = [i \in Insts |-> TRUE] /\ Rec(a, "ok")
                          /\ UNCHANGED <<status, href, shared, priv, mapped>>
     [] a.k = "drop"   -> /\ href[a.i] /\ status[a.i] = "closed"
                          /\ href' = [href EXCEPT ![a.i] = FALSE] /\ Rec(a, "ok")
@@ -100,7 +106,7 @@ Spec == Init /\ [][Next]_vars
 
 SafeCall == ~unsafe
 (* only histories that end in a call after some close are worth replaying *)
-Interesting == fin /\ Len(hist) > 0 /\ hist[Len(hist)].a.k = "call" /\ \E k \in 1..Len(hist) : hist[k].a.k \in {"close", "closec"}
+Interesting == fin /\ Len(hist) > 0 /\ hist[Len(hist)].a.k = "call" /\ \E k \in 1..Len(hist) : hist[k].a.k \in {"close", "closec", "cacheclose"}
 Emit == Interesting => PrintT(<<"EMIT", ToJson([hist |-> hist])>>)
 EmitUnsafe == (fin /\ unsafe /\ hist[Len(hist)].a.k = "call") => PrintT(<<"EMIT", ToJson([hist |-> hist])>>)
 (* histories in which a live instance calls a function of an instance that was closed, whose compiled module was
@@ -125,4 +131,10 @@ AllActs == {A("inst", i, "", 0, "") : i \in {"B", "D"}} \cup
    importer arrives, then collection, then a live instance calls through the slot *)
 FocusActs == {A("inst", "B", "", 0, ""), A("inst", "C", "", 0, ""), A("tset", "B", "", 0, ""), A("close", "B", "", 0, ""),
               A("closec", "B", "", 0, ""), A("drop", "B", "", 0, ""), A("gc", "", "", 0, ""), A("call", "A", "", 0, "shared"), A("call", "C", "", 0, "shared")}
+(* the compilation cache is closed under live instances; then collection; then every live instance keeps calling *)
+CacheActs == {A("inst", "B", "", 0, ""), A("tset", "B", "", 0, ""), A("tset", "A", "", 1, ""), A("pset", "B", "A", 0, ""),
+              A("cacheclose", "", "", 0, ""), A("gc", "", "", 0, ""), A("close", "B", "", 0, ""),
+              A("call", "A", "", 0, "shared"), A("call", "B", "", 1, "shared"), A("call", "B", "", 0, "priv"), A("call", "A", "", 1, "shared")}
+EmitCache == (fin /\ Len(hist) > 1 /\ hist[Len(hist)].a.k = "call" /\ \E k \in 1..Len(hist) : hist[k].a.k = "cacheclose")
+             => PrintT(<<"EMIT", ToJson([hist |-> hist])>>)
 =============================================================================
